@@ -167,6 +167,50 @@ class ViewVec(Vec):
         return [ViewVec(x, self.fn, x.col) if isinstance(x, Vec) else self.fn(x) for x in self.base.items]
 
 
+class _WriteThrough(list):
+    """the elements of an array view: an element store goes to the array the view was taken from"""
+    def __init__(self, values, store):
+        super().__init__(values)
+        self._store = store
+
+    def __setitem__(self, k, v):
+        if isinstance(k, slice):
+            idx = list(range(*k.indices(len(self))))
+            vals = list(v)
+            if len(vals) != len(idx):
+                raise ValueError("view: slice assignment of another length")
+            for i, x in zip(idx, vals):
+                self._store(i, x)
+        else:
+            self._store(k if k >= 0 else len(self) + k, v)
+        super().__setitem__(k, v)
+
+
+class ColView(Vec):
+    """column j of a 2-D array, as a view (a row of its transpose)"""
+    def __init__(self, base, j):
+        self.base, self.j, self.col = base, j, False
+
+    @property
+    def items(self):
+        j = self.j
+        rows = self.base.items
+
+        def store(i, v):
+            rows[i].items[j] = v
+        return _WriteThrough([r.items[j] for r in rows], store)
+
+
+class TransposeView(Vec):
+    """a.T of a 2-D array: a view, its rows are the columns of the base"""
+    def __init__(self, base):
+        self.base, self.col = base, False
+
+    @property
+    def items(self):
+        return [ColView(self.base, j) for j in range(len(self.base.items[0]))]
+
+
 class GenVal:
     """A generator object: its items can be consumed once."""
     def __init__(self, items):
